@@ -1,1 +1,265 @@
-//! Shared helpers for the vthread check parts.
+//! Shared helpers for the THREAD check parts (C10 / C11 / C04 thread parts):
+//! the template driver (explore every schedule of one op-set template up to a
+//! preemption bound, feed every execution to the oracle, count, record
+//! violations with replayable artefacts, determinism self-check) and the
+//! B-tree op language + plain reference model used by `c10_thread` and
+//! `c04_thread`.
+
+pub mod btree_case;
+
+use serde_json::{Value, json};
+use std::collections::BTreeSet;
+use std::time::{Duration, Instant};
+use vcore::choice::{Chooser, explore};
+use vcore::thread::{ExecEnd, ExecResult, render_trace};
+use vcore::{Run, Violation, util};
+
+/// Verdict of ONE execution of a template.
+pub struct Case {
+    pub end: ExecEnd,
+    pub trace: Vec<(u8, &'static str)>,
+    /// Canonical rendering of (return values, final contents): what the
+    /// oracle compared. Distinct values = distinct final outcomes.
+    pub outcome: String,
+    /// `Some((kind, detail))` when the oracle rejects this execution. `kind`
+    /// is the stable part used in the violation signature.
+    pub fail: Option<(String, String)>,
+}
+
+impl Case {
+    pub fn from_exec<T>(r: &ExecResult<T>) -> Case {
+        let mut c = Case {
+            end: r.end.clone(),
+            trace: r.trace.clone(),
+            outcome: String::new(),
+            fail: None,
+        };
+        match &r.end {
+            ExecEnd::AllDone => {}
+            ExecEnd::Deadlock(who) => {
+                c.fail = Some(("deadlock".into(), format!("deadlock: every unfinished thread is blocked: {who:?}")));
+            }
+            ExecEnd::Panic { thread, message } => {
+                c.fail = Some(("panic".into(), format!("thread {thread} panicked: {message}")));
+            }
+            ExecEnd::StepLimit => {
+                c.fail = Some(("livelock".into(), "step limit reached (livelock)".into()));
+            }
+        }
+        c
+    }
+}
+
+/// One op-set template: a fixed initial state plus the operations of every
+/// thread. `exec` runs ONE execution on a fresh fixture under the schedule
+/// the chooser dictates and applies the oracle.
+pub struct Template<'a> {
+    pub name: String,
+    /// Written-out description (prefill, ops per thread) for samples/replays.
+    pub describe: Value,
+    pub exec: Box<dyn Fn(&mut Chooser) -> Case + Sync + 'a>,
+}
+
+#[derive(Default, Clone, Debug)]
+pub struct Totals {
+    pub templates: usize,
+    pub executions: u64,
+    pub steps: u64,
+    pub outcomes: u64,
+    pub deadlocks: u64,
+    pub panics: u64,
+    pub min_completed_bound: Option<u32>,
+    pub capped: bool,
+}
+
+/// Explores every template up to `bound` preemptions; records counters,
+/// samples and violations in `run`.
+pub fn run_templates(run: &mut Run, templates: &[Template], bound: u32, pass: &str) -> Totals {
+    let mut tot = Totals::default();
+    let mut per_template: Vec<Value> = Vec::new();
+    let mut min_completed: i64 = bound as i64;
+    for t in templates {
+        if !run.in_budget() {
+            run.cap_hit(&format!("time budget: pass {pass} stopped before template {}", t.name));
+            tot.capped = true;
+            break;
+        }
+        tot.templates += 1;
+        let deadline = Instant::now() + Duration::from_secs_f64(run.remaining_s());
+        let mut outcomes: BTreeSet<String> = BTreeSet::new();
+        let mut steps = 0u64;
+        let mut deadlocks = 0u64;
+        let mut panics = 0u64;
+        let mut fails: Vec<(Vec<u32>, Case)> = Vec::new();
+        let mut fail_kinds: BTreeSet<String> = BTreeSet::new();
+        let mut diverged: Option<String> = None;
+        let mut deepest: Option<Vec<u32>> = None;
+        let stats = explore(
+            bound,
+            util::n_threads(),
+            deadline,
+            u64::MAX,
+            |ch| {
+                let case = (t.exec)(ch);
+                (case, ch.diverged.clone())
+            },
+            |choices, (case, div)| {
+                if let Some(d) = div {
+                    diverged = Some(d);
+                    return false;
+                }
+                steps += case.trace.len() as u64;
+                match case.end {
+                    ExecEnd::Deadlock(_) => deadlocks += 1,
+                    ExecEnd::Panic { .. } => panics += 1,
+                    _ => {}
+                }
+                if !case.outcome.is_empty() {
+                    outcomes.insert(case.outcome.clone());
+                }
+                if deepest.as_ref().map(|d| d.len() < choices.len()).unwrap_or(true) && choices.iter().any(|c| *c != 0) {
+                    deepest = Some(choices.clone());
+                }
+                if let Some((kind, _)) = &case.fail {
+                    // keep the first (= fewest preemptions, earliest) case of every kind
+                    if fail_kinds.insert(kind.clone()) {
+                        fails.push((choices, case));
+                    }
+                }
+                true
+            },
+        );
+        if let Some(d) = diverged {
+            vcore::report::machinery(&format!("THREAD template {}: {d}", t.name));
+        }
+        // Determinism self-check: the default schedule and the longest
+        // deviating choice list seen must replay to the identical trace.
+        let mut lists: Vec<Vec<u32>> = vec![Vec::new()];
+        lists.extend(deepest);
+        for list in lists {
+            let a = (t.exec)(&mut Chooser::new(list.clone()));
+            let b = (t.exec)(&mut Chooser::new(list.clone()));
+            if a.trace != b.trace || a.end != b.end {
+                vcore::report::machinery(&format!(
+                    "THREAD template {}: replaying choices {list:?} gave different traces:\n  {}\n  {}",
+                    t.name,
+                    render_trace(&a.trace),
+                    render_trace(&b.trace)
+                ));
+            }
+        }
+        for (choices, case) in fails {
+            let (kind, detail) = case.fail.clone().unwrap();
+            run.violation(Violation {
+                signature: format!("{}.{}:{}:{}", run.property, run.part, t.name, kind),
+                summary: format!(
+                    "template {}: {} | schedule: {}",
+                    t.name,
+                    detail,
+                    render_trace(&case.trace)
+                ),
+                replay: json!({
+                    "template": t.name,
+                    "describe": t.describe,
+                    "choices": choices,
+                    "schedule": render_trace(&case.trace),
+                    "outcome": case.outcome,
+                    "failure": detail,
+                }),
+            });
+        }
+        for o in &outcomes {
+            run.distinct(util::fnv64(format!("{}|{}", t.name, o).as_bytes()));
+        }
+        run.sample(json!({
+            "template": t.name,
+            "describe": t.describe,
+            "pass": pass,
+            "executions": stats.executions,
+            "distinct_outcomes": outcomes.iter().take(4).collect::<Vec<_>>(),
+        }));
+        per_template.push(json!({
+            "template": t.name,
+            "executions": stats.executions,
+            "per_preemption_level": stats.per_level,
+            "schedule_points": steps,
+            "longest_schedule": stats.max_depth,
+            "distinct_outcomes": outcomes.len(),
+            "completed_bound": stats.completed_bound,
+        }));
+        tot.executions += stats.executions;
+        tot.steps += steps;
+        tot.outcomes += outcomes.len() as u64;
+        tot.deadlocks += deadlocks;
+        tot.panics += panics;
+        let cb = stats.completed_bound;
+        min_completed = min_completed.min(cb.map(|b| b as i64).unwrap_or(-1));
+        if stats.capped || cb != Some(bound) {
+            tot.capped = true;
+            run.cap_hit(&format!(
+                "time budget: pass {pass}, template {} stopped with preemption bound {:?} completed (target {bound})",
+                t.name, cb
+            ));
+        }
+    }
+    tot.min_completed_bound = (min_completed >= 0 && tot.templates == templates.len()).then_some(min_completed as u32);
+    run.add("evaluations", tot.executions);
+    run.add("traces_validated_against_impl", tot.executions);
+    run.add("transitions", tot.steps);
+    run.add("states", tot.outcomes);
+    run.add("deadlocks", tot.deadlocks);
+    run.add("panics", tot.panics);
+    run.set(&format!("pass_{pass}"), json!({
+        "target_preemption_bound": bound,
+        "completed_preemption_bound": tot.min_completed_bound,
+        "templates": per_template,
+    }));
+    tot
+}
+
+/// `--replay <file>`: re-runs exactly the recorded template + choice list.
+pub fn replay(mut run: Run, templates: &[Template]) -> ! {
+    let file = run.replay_file.clone().unwrap();
+    let doc: Value = match std::fs::read(&file).ok().and_then(|d| serde_json::from_slice(&d).ok()) {
+        Some(v) => v,
+        None => vcore::report::machinery(&format!("cannot read replay file {file:?}")),
+    };
+    let rep = doc.get("replay").cloned().unwrap_or(doc.clone());
+    let name = rep.get("template").and_then(|v| v.as_str()).unwrap_or("");
+    let choices: Vec<u32> = rep
+        .get("choices")
+        .and_then(|v| v.as_array())
+        .map(|a| a.iter().filter_map(|x| x.as_u64()).map(|x| x as u32).collect())
+        .unwrap_or_default();
+    let Some(t) = templates.iter().find(|t| t.name == name) else {
+        vcore::report::machinery(&format!("replay: unknown template {name:?}"));
+    };
+    let mut ch = Chooser::new(choices.clone());
+    let case = (t.exec)(&mut ch);
+    if let Some(d) = ch.diverged {
+        vcore::report::machinery(&format!("replay: {d}"));
+    }
+    run.add("evaluations", 1);
+    run.add("traces_validated_against_impl", 1);
+    run.add("transitions", case.trace.len() as u64);
+    println!("replayed template {name}: schedule {}", render_trace(&case.trace));
+    println!("outcome: {}", case.outcome);
+    if let Some((kind, detail)) = case.fail.clone() {
+        run.violation(Violation {
+            signature: format!("{}.{}:{}:{}", run.property, run.part, t.name, kind),
+            summary: format!("template {}: {} | schedule: {}", t.name, detail, render_trace(&case.trace)),
+            replay: rep,
+        });
+    } else {
+        println!("replay: the recorded case holds on this tree");
+    }
+    run.finish()
+}
+
+/// Common start-up: silence worker panics, engine self-test.
+pub fn engine_ready() {
+    vcore::thread::quiet_worker_panics();
+    if let Err(e) = vcore::thread::selftest() {
+        vcore::report::machinery(&format!("THREAD engine self-test failed: {e}"));
+    }
+}
